@@ -206,6 +206,31 @@ def check_case(case, ctx):
             ctx.tag('selector-pruned')
         if st['tie_branches']:
             ctx.tag('tie-at-beam-boundary')
+    # unusual-but-legal use: float32 log-probabilities; one decoder object called repeatedly; the input matrix must stay untouched
+    if len(case['rows']) <= 2 and 'k' not in case:
+        from pero_ocr.decoding.decoders import CTCPrefixLogRawNumpyDecoder
+        for k in (2, 100):
+            dec = CTCPrefixLogRawNumpyDecoder(letters, k)
+            lp32 = lp.astype(np.float32)
+            keep = lp32.copy()
+            r32 = [(h.transcript, float(h.vis_sc)) for h in dec(lp32)]
+            other = to_log([RA[(i + 1) % len(RA)] for i in case['rows']])
+            dec(other)                                         # another line in between
+            again = [(h.transcript, float(h.vis_sc)) for h in dec(lp32)]
+            ctx.executed(3)
+            r64 = dict(decode(C, lp, k, 'default'))
+            if not np.array_equal(lp32, keep, equal_nan=True):
+                ctx.violation('never-over-counts', f'{ID}/C{C}/modifies-its-input', f'k={k}: the log-probability matrix passed in was modified; matrix {M}')
+                break
+            if sorted(r32) != sorted(again):
+                ctx.violation('equals-frame-synchronous-beam-search', f'{ID}/C{C}/same-decoder-second-call-differs',
+                              f'k={k}: decoding the same matrix again with the same decoder object (another line in between) gives {again} instead of {r32}; matrix {M}')
+                break
+            if k == 100 and (set(dict(r32)) != set(r64) or any(abs(dict(r32)[t] - r64[t]) > 1e-4 for t in r64)):
+                ctx.violation('exact-when-unpruned', f'{ID}/C{C}/float32-input-differs',
+                              f'k={k}: float32 log-probabilities give {sorted(r32)}, float64 {sorted(r64.items())}; matrix {M}')
+                break
+        ctx.tag('float32-and-reused-decoder')
     if len(case['rows']) == 2 and 'k' not in case:
         ctx.sample({'matrix': M, 'k': 2, 'hypotheses': decode(C, lp, 2, 'default')})
 
@@ -223,5 +248,5 @@ def describe(tier):
                         'scores are compared within 1e-9', 'blank is the last symbol'],
         'min_nontrivial': 100,
         'required_tags': ['beam-pruned', 'prefix-joining', 'all-pruned-shortcut', 'selector-pruned', 'unpruned-nodes',
-                          'unnormalised-variants', 'tie-at-beam-boundary'],
+                          'unnormalised-variants', 'tie-at-beam-boundary', 'float32-and-reused-decoder'],
     }
